@@ -351,7 +351,11 @@ def rand_hdr(rng) -> bytes:
     if rng.random() < 0.4:
         return realistic_hdr(rng)
     n = rng.choice([1, 2, 6, 35, 35, 35, 64, 255, 256, 300])
-    return bytes(rng.getrandbits(8) for _ in range(n))
+    h = bytes(rng.getrandbits(8) for _ in range(n))
+    if rng.random() < 0.35:
+        # the first octet is where a packet says which signature version it is: the neighbours of 4 (v3, v5, v6), 0 and 0xff are tried on purpose
+        h = bytes([rng.choice([3, 5, 5, 6, 0, 0xFF, 2])]) + h[1:]
+    return h
 
 
 GPG_HDR_TYPICAL = bytes.fromhex("04001608001d162104f075dd2f6f4cb3bd76134bbb81b6ca16ef9cd58905025f0bf546")
